@@ -244,6 +244,31 @@ def check_case(ctx, case):
         ctx.sample({k: v for k, v in case.items()})
 
 
+def check_relabelled(ctx, rng):
+    """History: an input with unnamed ancestors is inspected first (repr / to_dict - legal at any time), then its
+    ancestors are named by label_internal() (what the CLI and the solvers do); from then on its nodes are uniquely named
+    and the round trip must reproduce it - nothing of the earlier serialisation may be reused."""
+    for algo in ("thl", "superdtl"):
+        Gn, Sn, lm = gen.random_input(rng, 5, 4, min_obj=2, min_sp=2)
+        case = {"kind": "relabel", "algo": algo, "G": Gn, "S": Sn, "leafmap": lm, "costs": gen.random_cost(rng), "named": False}
+        if case["costs"]["hgt"] == "inf":
+            case["costs"]["hgt"] = 9
+        if algo == "superdtl":
+            case["syn"] = gen.random_syntenies(rng, list(lm), 3, ordered=False)
+        B = bridge.Built(case, named=False)
+        try:
+            repr(B.inp)
+            B.inp.to_dict()
+        except Exception:  # noqa: BLE001 - serialising an input with unnamed ancestors is not what is observed here
+            pass
+        B.inp.label_internal()
+        ctx.count("mon.relabelled")
+        roundtrip(ctx, case, B.inp, None, source="relabelled")
+        obs = SC.call(algo, B.inp, ALL)
+        for out in obs.outs[:3]:
+            roundtrip(ctx, case, out, None, source="relabelled-solution")
+
+
 def check_solver_outputs(ctx, rng):
     """Round trip of what the real solvers return."""
     for algo in ("thl", "ext_spfs", "superdtl", "lca", "base_uspfs"):
@@ -308,6 +333,8 @@ def run(ctx, spec):
         check_case(ctx, case)
         if k % 6 == 0:
             check_solver_outputs(ctx, rng)
+        if k % 6 == 3:
+            check_relabelled(ctx, rng)
         if ctx.too_many():
             return
 
@@ -315,6 +342,18 @@ def run(ctx, spec):
 def replay(ctx, case):
     if case["kind"] == "rt":
         check_case(ctx, case)
+    elif case["kind"] == "relabel":
+        B = bridge.Built(case, named=False)
+        try:
+            repr(B.inp)
+            B.inp.to_dict()
+        except Exception:  # noqa: BLE001
+            pass
+        B.inp.label_internal()
+        roundtrip(ctx, case, B.inp, None, source="relabelled")
+        obs = SC.call(case["algo"], B.inp, ALL)
+        for out in obs.outs[:3]:
+            roundtrip(ctx, case, out, None, source="relabelled-solution")
     else:
         B = bridge.Built(case)
         obs = SC.call(case["algo"], B.inp, ALL)
